@@ -861,7 +861,8 @@ where
 
     fn size_hint(&self) -> (usize, Option<usize>) {
         if let Some(symbol) = self.symbol {
-            let len = slack::<usize, _>(symbol, self.model.quantizer.max_symbol_inclusive)
+            // Number of remaining symbols: `max_symbol_inclusive - symbol + 1`.
+            let len = slack::<usize, _>(self.model.quantizer.max_symbol_inclusive, symbol)
                 .saturating_add(1);
             (len, None)
         } else {
